@@ -114,6 +114,9 @@ func leanTypeExt(e ast.Expr) string {
 		if src(x) == "http.Header" {
 			return "List (Str × List Str)"
 		}
+		if src(x) == "http.ResponseWriter" {
+			return "HttpWriter"
+		}
 	case *ast.ArrayType:
 		if x.Len == nil {
 			if t := leanType(x.Elt); t != "" {
@@ -376,6 +379,14 @@ func (t *tr) typedCall(c *ast.CallExpr) (string, bool, bool) {
 		a, m1 := t.expr(inner.X)
 		k, m2 := t.expr(c.Args[0])
 		return "(" + a + ".header " + k + ")", m1 || m2, true
+	}
+	// httpWriter.Header().Get(k)
+	if hc, ok := sel.X.(*ast.CallExpr); ok && sel.Sel.Name == "Get" && len(c.Args) == 1 && len(hc.Args) == 0 {
+		if hs, ok := hc.Fun.(*ast.SelectorExpr); ok && hs.Sel.Name == "Header" && src(t.typeOf(hs.X)) == "http.ResponseWriter" {
+			a, m1 := t.expr(hs.X)
+			k, m2 := t.expr(c.Args[0])
+			return "(" + a + ".header " + k + ")", m1 || m2, true
+		}
 	}
 	rt := t.typeOf(sel.X)
 	if src(rt) == "*regexp.Regexp" {
